@@ -53,7 +53,7 @@ using NPtr = tlx::CountingPtrNoDelete<Obj>;
 enum {
     H_NEW = 0, H_NEWD, H_COPYCTOR, H_MOVECTOR, H_COPYASSIGN, H_MOVEASSIGN, H_CONVCOPYCTOR, H_CONVMOVECTOR,
     H_CONVCOPYASSIGN, H_CONVMOVEASSIGN, H_RESET, H_SWAP, H_UNIFY, H_DROP, H_ASSIGN_NULL, H_DRESET, H_DCOPY,
-    H_LINK, H_ADVANCE, H_ADVANCE_MOVE, H_UNLINK, H_PUSH_FRONT, H_N
+    H_LINK, H_ADVANCE, H_ADVANCE_MOVE, H_UNLINK, H_PUSH_FRONT, H_MAKE_SELFREG, H_N
 };
 enum { T_COPY_BASE = 0, T_COPY_OWN, T_MOVE_OWN, T_RESET, T_DROP, T_COPYCTOR, T_READ, T_UNIFY, T_SWAP, T_N };
 
@@ -169,11 +169,17 @@ struct History : public DyingHook {
     void reg(const Obj* o) { if (alive_ptr.size() <= size_t(o->id)) alive_ptr.resize(size_t(o->id) + 1, nullptr); alive_ptr[size_t(o->id)] = o; }
 };
 
+// an object whose constructor hands out a handle to itself (self-registration; the header advertises that no
+// enable_shared_from_this kludge is needed), created through tlx::make_counting
+struct SelfReg : public Obj {
+    SelfReg(History* h, int slot) { h->s[slot] = nullptr; h->s[slot] = std::make_unique<Ptr>(this); }
+};
+
 void run_history(const Workload& w, Result& res) {
     History h(res);
     static const char* names[] = {"new", "new_derived", "copy_ctor", "move_ctor", "copy_assign", "move_assign", "conv_copy_ctor",
                                   "conv_move_ctor", "conv_copy_assign", "conv_move_assign", "reset", "swap", "unify", "drop",
-                                  "assign_null", "dreset", "dcopy", "link", "advance", "advance_move", "unlink", "push_front"};
+                                  "assign_null", "dreset", "dcopy", "link", "advance", "advance_move", "unlink", "push_front", "make_counting_selfreg"};
     int step = 0;
     for (auto& op : w.ops) {
         if (op.empty()) continue;
@@ -245,6 +251,12 @@ void run_history(const Workload& w, Result& res) {
             }
             break;
         case H_UNLINK: if (h.slot(i).get()) h.slot(i)->next.reset(); break;
+        case H_MAKE_SELFREG: {
+            // slot j is filled by the object's own constructor, slot i by make_counting's result
+            tlx::CountingPtr<SelfReg> p = tlx::make_counting<SelfReg>(&h, j);
+            h.reg(p.get());
+            h.s[i] = nullptr; h.s[i] = std::make_unique<Ptr>(p);
+            break; }
         case H_PUSH_FRONT: {
             // list style: a new node takes over the handle's object as its successor and becomes the head
             Obj* n = h.mk();
